@@ -71,4 +71,15 @@ def traversal_kernel(tier, which):
 
 
 def build(tier, seed):
-    return [kernel_or_error('traversal', lambda: traversal_kernel(tier, ('edges', 'step', 'block')))]
+    ks = [kernel_or_error('traversal', lambda: traversal_kernel(tier, ('edges', 'step', 'block')))]
+    # the traversal stops at <stdint.h> names (Trace for Type): that is only closed if code generation replaces exactly those names by primitives
+    def tables():
+        from props import c02
+        for k in c02.build(tier, seed):
+            if k.name == 'tables':
+                k.harnesses = [h for h in k.harnesses if h.name == 'stdint_names_map_to_the_right_primitive']
+                k.name = 'stdint_tables'
+                return k
+        raise SliceError('tables kernel not available')
+    ks.append(kernel_or_error('stdint_tables', tables))
+    return ks
